@@ -64,13 +64,20 @@ func genFields(c *Ctx) {
 		b := []byte(t)
 		c.Emit(val.L(val.N(0), val.B(b)))
 		c.Emit(val.L(val.N(1), val.B(b)))
-		// JSON: a proper encoding of t, and t itself as a raw document
+		// JSON: a proper encoding of t, t between quotes as it is (a string literal whose inside is
+		// RAW text: control characters, line breaks, quotes, backslashes unescaped - what a caller of
+		// the method, or a lenient decoder, may hand over; `decoded` is what encoding/json says of it),
+		// and t itself as a raw document
 		enc, _ := json.Marshal(t)
-		for _, doc := range [][]byte{enc, b, []byte("null"), []byte("12"), []byte(`"a\u000ab"`), []byte(`"a\rb"`), []byte(`"\u000D"`)} {
+		quoted := append(append([]byte{'"'}, b...), '"')
+		if hasNL {
+			c.Count("json:raw-linebreak-inside-literal")
+		}
+		for di, doc := range [][]byte{quoted, enc, b, []byte("null"), []byte("12"), []byte(`"a\u000ab"`), []byte(`"a\rb"`), []byte(`"\u000D"`)} {
 			var s string
 			err := json.Unmarshal(doc, &s)
 			c.Emit(val.L(val.N(2), val.B(doc), val.Opt(val.S(s), err == nil)))
-			if len(texts) > 500 && c.R.Intn(4) != 0 {
+			if di >= 1 && len(texts) > 500 && c.R.Intn(4) != 0 {
 				break
 			}
 		}
